@@ -9,6 +9,7 @@ import sys, os, subprocess, json, shutil, time
 tag, prop = sys.argv[1], sys.argv[2]
 name = sys.argv[3] if len(sys.argv) > 3 else tag
 src = '/tmp/seed_%s/out' % tag
+if not os.path.isdir(src): src = '/verif/seeded/%s' % name      # re-evaluation of a seed already kept
 wt = '/tmp/seedeval_%s' % tag
 def sh(cmd, cwd=None, timeout=3000, env=None):
     p = subprocess.run(cmd, shell=True, cwd=cwd, stdout=subprocess.PIPE, stderr=subprocess.STDOUT, timeout=timeout, env=env)
@@ -40,7 +41,7 @@ print(json.dumps(res, indent=1))
 if ok:
     dst = '/verif/seeded/%s' % name; os.makedirs(dst, exist_ok=True)
     for f in ('patch.diff', 'demo.c', 'run_demo.sh'):
-        if os.path.exists(os.path.join(src, f)): shutil.copy(os.path.join(src, f), dst)
+        if os.path.exists(os.path.join(src, f)) and os.path.abspath(src) != os.path.abspath(dst): shutil.copy(os.path.join(src, f), dst)
     meta = json.load(open(os.path.join(src, 'meta.json'))) if os.path.exists(os.path.join(src, 'meta.json')) else {}
     meta.update({'property': prop, 'confirmed_by_lead': {'demo_passes_on_original': True, 'tests_pass_with_change': True, 'demo_fails_on_changed': True,
                  'what_was_run': 'tools/seed_eval.py: fresh worktree, bash run_demo.sh (rc 0), git apply patch.diff, cmake+ninja build, ctest -j8 (317/317), bash run_demo.sh (rc %s), VERIF_REPO=<worktree> ./check %s' % (res.get('demo_on_changed_rc'), prop)},
